@@ -52,7 +52,11 @@ class NativeFacts:
         import z3 as _z3
         for name, clause, thunk in self.items:
             try:
-                ok = bool(thunk(v.facts))
+                ok = thunk(v.facts)
+                if ok is None:          # the item declines to decide (e.g. an unreviewed, unrecorded site): undecided, not a violation
+                    v.undecided.append(('%s::%s' % (self.label, name), clause))
+                    continue
+                ok = bool(ok)
             except Exception as e:
                 ok = False
                 clause = '%s (raised %r)' % (clause, e)
@@ -102,6 +106,7 @@ class Verifier:
         self.undecided = []       # (name, reason)
         self.covers = []
         self.stmt_seen = set()
+        self.loop_modifies = {}    # loop name -> attribute names its body stores (observed while proving loop-body equivalence)
         self.stats = {'paths': 0}
 
     def new_executor(self, config):
@@ -167,6 +172,7 @@ class Verifier:
             # the values passed as keyword arguments are nameable in clauses as kw_<name> (the kwargs dict itself may be consumed by pop())
             for nm, val in items.items():
                 st.ghost['$args']['kw_' + nm] = val
+                st.env.setdefault('kw_' + nm, val)
         st.env['$class'] = SV('cname', None)
         st.ghost['$pre'] = (st.tok, dict(st.arr))
         return st
@@ -342,6 +348,11 @@ class Verifier:
                     self.undecided.append(('%s::%s' % (label, lname), 'loop reached on one side only'))
                     continue
                 self._loop_body_equiv(c.label, c, lname, exi, jobs_i[lname], exr, jobs_r[lname])
+        # loop frame guard: a summarised loop leaves the attribute arrays untouched, which is only right if no attribute the loop body
+        # stores is read (through the heap) after the loop
+        for ln, attr in sorted(exi.post_loop_reads | exr.post_loop_reads):
+            if attr in self.loop_modifies.get(ln, ()):
+                self.undecided.append(('%s::%s' % (label, ln), 'attribute %r is stored by the body of the summarised loop and read after it (loop summary frame assumption does not hold)' % attr))
         # obligations raised while executing loop bodies (e.g. the head invariant of a nested loop established inside an outer body)
         for ob in exi.obligations[n_i:] + exr.obligations[n_r:]:
             self.add(ob['name'], c.func, ob['clause'], ob['pc'], ob['goal'], 'invariant')
@@ -482,7 +493,13 @@ class Verifier:
                 heads = ex.assume_clauses(s, job['lc'].get('inv', []), job['module']) if job['lc'].get('inv') else [s]
                 steps = []
                 for hs in heads:
-                    steps += ex.loop_step(hs, job['module'], its, job['bind'], job['body'])
+                    before = {k: a for k, a in hs.arr.items() if k.startswith('at:')}
+                    got = ex.loop_step(hs, job['module'], its, job['bind'], job['body'])
+                    for _kind, s_after, _v, _its in got:
+                        for k, a in s_after.arr.items():
+                            if k.startswith('at:') and (k not in before or not z3.eq(a, before[k])) and not z3.eq(a, z3.Const('at0_' + k[3:], Z.ArrRR)):
+                                self.loop_modifies.setdefault(lname, set()).add(k[3:])
+                    steps += got
                 outs = []
                 for kind, s2, val, its2 in steps:
                     if kind in ('fall', 'continue') and job['lc'].get('inv'):
